@@ -1140,6 +1140,60 @@ def detect_prekind():
 
 # ----------------------------------------------------------------------------------------------------
 
+def datetime_case(ctx):
+    """Typed timestamp columns (an in-memory DataFrame and a Parquet file with a datetime64 column): one row set is all midnight,
+    another has a time of day.  Whatever text a timestamp is rendered as, it must be the same for the row alone, for its half and for
+    the whole table (a column-wise cast picks ONE format per column: `2021-03-01` for an all-midnight column)."""
+    import pandas as pd
+    import morph_kgc
+    d = os.path.join(ctx.tmp, 'dt')
+    os.makedirs(d, exist_ok=True)
+    midnight = [('1', '2021-03-01 00:00:00'), ('2', '2021-03-02 00:00:00')]
+    daytime = [('3', '2021-03-03 10:30:00'), ('4', '2021-03-04 00:00:01')]
+    pre = ('@prefix rr: <http://www.w3.org/ns/r2rml#> . @prefix rml: <http://semweb.mmlab.be/ns/rml#> . @prefix ql: <http://semweb.mmlab.be/ns/ql#> .\n')
+    body = ('  rr:subjectMap [ rr:template "http://ex/e/{id}" ];\n'
+            '  rr:predicateObjectMap [ rr:predicate <http://ex/at>; rr:objectMap [ rml:reference "t" ] ] .\n')
+
+    def frame(rows):
+        return pd.DataFrame({'id': [r[0] for r in rows], 't': pd.to_datetime([r[1] for r in rows])})
+
+    def run_frame(rows):
+        mp = os.path.join(d, 'mem.ttl')
+        with open(mp, 'w') as f:
+            f.write(pre + '<http://ex/TM> rml:logicalSource [ rml:source "{df}" ];\n' + body)
+        cfg = f'[CONFIGURATION]\nnumber_of_processes=1\nlogging_level=CRITICAL\n[DS]\nmappings={mp}\n'
+        return {t.strip() for t in morph_kgc.materialize_set(cfg, {'df': frame(rows)})}
+
+    def run_parquet(rows):
+        pq = os.path.join(d, 't.parquet')
+        frame(rows).to_parquet(pq)
+        mp = os.path.join(d, 'pq.ttl')
+        with open(mp, 'w') as f:
+            f.write(pre + f'<http://ex/TM> rml:logicalSource [ rml:source "{pq}" ];\n' + body)
+        cfg = f'[CONFIGURATION]\nnumber_of_processes=1\nlogging_level=CRITICAL\n[DS]\nmappings={mp}\n'
+        return {t.strip() for t in morph_kgc.materialize_set(cfg)}
+
+    runners = [('DataFrame', run_frame)]
+    try:
+        import pyarrow  # noqa: F401
+        runners.append(('Parquet', run_parquet))
+    except Exception:   # noqa: BLE001
+        ctx.bump('datetime case: pyarrow unavailable')
+    for name, run_ in runners:
+        inp = {'kind': 'datetime', 'source': name}
+        ctx.case(['datetime', name], nontrivial=True, kind=f'typed timestamps, midnight / time-of-day halves ({name})')
+        ctx.traces_validated += 3
+        try:
+            whole, a, b = run_(midnight + daytime), run_(midnight), run_(daytime)
+        except Exception as e:   # noqa: BLE001
+            ctx.violation(f'{name} source with a datetime64 column fails: {type(e).__name__}: {str(e)[:200]}', inp)
+            continue
+        if whole != a | b:
+            ctx.violation(f'{name}: the result over the whole table is not the union of the results over its halves '
+                          f'(a timestamp is rendered differently depending on the other rows of its column): only in the union '
+                          f'{sorted((a | b) - whole)[:2]}, only in the whole {sorted(whole - (a | b))[:2]}', inp)
+
+
 def run(ctx, lean, findings):
     rng = ctx.rng
     drv = ctx.get_driver() if ctx.model_available else None
@@ -1154,6 +1208,7 @@ def run(ctx, lean, findings):
     else:
         ctx.notes.append(f'generated facts: {drv.call("c11_facts")}')
     mult = 3 if ctx.escalate else 1
+    datetime_case(ctx)
     if drv:
         coerce_paths(ctx, drv, rng, ctx.budget(150, 4000) * mult)
         i3_preprocess(ctx, drv, rng, ctx.budget(60, 2000) * mult, prekind)
@@ -1206,5 +1261,9 @@ def run(ctx, lean, findings):
 
 
 def replay(ctx, data):
+    if data.get('input', {}).get('kind') == 'datetime':
+        before = len(ctx.violations)
+        datetime_case(ctx)
+        return len(ctx.violations) > before
     FRAME_STRIP['shape'] = detect_frame_strip()
     return replay_input(ctx, data['input'], os.path.join(ctx.tmp, 'rp'), detect_prekind())
